@@ -241,6 +241,14 @@ def step (st : State) (w : List String) : State × String :=
     let idl := (ids.splitOn ",").filterMap String.toNat?
     let res := shareAll { addr := 1, id := 0, body := 7 } (idl.map fun i => (i, true)) 2
     (st, s!"ids={",".intercalate (res.map fun m => toString m.id)} ownq=t")
+  | ["usrv", "spell", _mode, _seed, kinds] =>
+    -- every ask — miss or hit, whatever spelling the entry was admitted under — echoes its own question
+    let n := (kinds.splitOn ",").length * 3
+    let outs := (List.range n).map fun i =>
+      let stored : Bytes := [UInt8.ofNat (i / 3)]          -- the spelling the entry was admitted under
+      let mine : Bytes := [UInt8.ofNat (i / 3), UInt8.ofNat (i % 3)]
+      if (hitReply { id := i, question := mine } { question := stored, answers := [] }).question == mine then "q" else "x"
+    (st, "".intercalate outs)
   | ["usrv", "cookie", _mode, pat] =>
     let qs : List EdnsReq := (pat.toList.zipIdx).map fun (c, i) =>
       if c == 'c' then { hasOpt := true, cookie := some (i + 1), doBit := i % 3 == 0 }
